@@ -228,6 +228,7 @@ func dispatchConnection(conn net.Conn, sta *State) {
 		return
 	}
 
+retry:
 	var user *ActiveUser
 	if sta.IsBypass(ci.UID) {
 		user, err = sta.Panel.GetBypassUser(ci.UID)
@@ -246,6 +247,10 @@ func dispatchConnection(conn net.Conn, sta *State) {
 
 	common.VerifPoint("dispatchConnection:beforeGetSession")
 	sesh, existing, err := user.GetSession(ci.SessionId, seshConfig)
+	if err == errUserRetired {
+		// the user's last session closed after the lookup above: look the user up again
+		goto retry
+	}
 	if err != nil {
 		user.CloseSession(ci.SessionId, "")
 		log.Error(err)
